@@ -17,16 +17,16 @@ CHECKS = {
     "C03": {
         "technique": "flow-sensitive MIR dataflow of DpEvent carriers (must-reach the return place on every normal path) + AST term rules for budget agreement and conservation",
         "level": "Decides that no DpEvent produced in the DP / rewriting code is discarded on a normally returning path (V1), that each Gaussian / tau mechanism site reports an event built from a budget at least the one it used (V2), "
-                 "that shares and splits conserve the budget handed down (V3), and that gaussian_noise / gaussian_noise_multiplier have the closed form of the classical calibration with a saturating-only clamp (V4), and that the event algebra never loses a mechanism: compose returns one operand only when the other is a no-op and is_no_op looks at every entry of a composed event (V5). Adequacy of that bound itself is not decided.",
+                 "that shares and splits conserve the budget handed down (V3), and that gaussian_noise / gaussian_noise_multiplier have the closed form of the classical calibration with a saturating-only clamp (V4), and that the event algebra never loses a mechanism: compose returns one operand only when the other is a no-op and is_no_op looks at every entry of a composed event (V5), and that the sampler is the Box-Muller term over two separate draws scaled by sigma (V6). Adequacy of that bound itself is not decided.",
         "design_ref": "DESIGN.md §3 C03",
         "note": "Trusted: rustc MIR (mir-opt-level 0); helper-moved mechanisms fail closed as UNDECIDED; over-reporting is not a violation.",
     },
     "C04": {
         "technique": "AST def-use / lineage evaluation of the tau-thresholding pipeline, closed-term check of the tau formula, MIR def-use of builder call order",
         "level": "Decides parameter agreement of cap/noise/tau/event (K1), the pipeline order dedupe->cap->count->noise->filter->project on every non-error return (K2), strict lower-bound filter on the noisy count (K3), the public-values gate (K4), "
-                 "aggregation over the join with released keys (K5), the closed form of tau (K6), that no builder restores the unprotected input (B1) that no filter is applied to a still-empty builder, where it would be dropped (B2) and that every Map re-builder re-applies filter / order_by / limit / offset unconditionally (B3). Randomness and SQL semantics of the produced relation are not decided.",
+                 "aggregation over the join with released keys (K5), the closed form of tau (K6), that no builder restores the unprotected input (B1) that no filter is applied to a still-empty builder, where it would be dropped (B2) and that every Map re-builder re-applies filter / order_by / limit / offset unconditionally (B3), and that the contribution cap ranks the rows of a unit by a self-join on one random column and keeps those ranked <= max (K7). Randomness and SQL semantics of the produced relation are not decided.",
         "design_ref": "DESIGN.md §3 C04",
-        "note": "Trusted: Relation::{unique, limit_col_contributions} do what their names say (bodies not analysed); statrs Normal::inverse_cdf.",
+        "note": "Trusted: Relation::unique does what its name says (body not analysed); statrs Normal::inverse_cdf.",
     },
     "C05": {
         "technique": "AST term/arm tables of PrivacyUnitTracking and JoinBuilder::and, MIR aggregate facts for the PupRelation typestate, MIR def-use of builder call order, sibling cross-check of the protected-table predicate",
@@ -65,7 +65,7 @@ CHECKS = {
     },
     "C11": {
         "technique": "MIR who-may-write facts for the interval vector and return-place dominance in the two mutators; AST rules for hull construction; simulated ordered match over all variant pairs for the four lattice operations",
-        "level": "Decides encapsulation of the interval-set invariant (L1), that simplification returns self or the min/max hull (L2), conservative defaults and neutral/absorbing elements of the cross-variant dispatch over all 21x21 pairs (L3) the conversion direction of cross-variant arms (L4), component-wise composite operations (L5), least/greatest Bound values (L6), an order on interval sets that is inclusion (L7), same-variant union / intersection of the interval-set variants (L8) and untruncated value enumerations (N1). "
+        "level": "Decides encapsulation of the interval-set invariant (L1), that simplification returns self or the min/max hull (L2), conservative defaults and neutral/absorbing elements of the cross-variant dispatch over all 21x21 pairs (L3) the conversion direction of cross-variant arms (L4), component-wise composite operations (L5), least/greatest Bound values (L6), an order on interval sets that is inclusion (L7), same-variant union / intersection of the interval-set variants (L8), container inclusion as the conjunction of whole-component inclusions (L9) and untruncated value enumerations (N1). "
                  "Index arithmetic of union/intersection and per-variant laws over values are not decided.",
         "design_ref": "DESIGN.md §3 C11",
         "note": "L1(d) compile-fail witnesses are in /verif/witness (thorough tier).",
@@ -73,13 +73,13 @@ CHECKS = {
     "C08": {
         "technique": "join of the renderer table (variant -> translator method -> SQL spelling, from type-resolved MIR switch/const facts) with the reader table (SQL name -> operator, from the syn AST); positional slot tables of the CTE renderer; oracle table of standard SQL names",
         "level": "Decides, for every operator the SQL reader can produce, that it is rendered without abort (E3) under a spelling the reader maps back to the same operator (E4), that standard SQL names have their standard meaning (E5), that every component of a relation node and every alias is rendered "
-                 "inside the node's CTE (E7, E8), that operator operands are parenthesised (E9), that GROUP BY prefers input columns over aliases (E10), that the builders keep the WHERE on every split shape (E11), that nested CASE is merged in order (E12) that CTE lists of binary nodes are merged through one set (E13), that float literals are written with round-trip precision (E14), that the Map/Reduce split keeps the order of select items (E15) that CTE definitions are spelled like their references (E16), that literals are rendered through exact (transparent) Display impls (E17), that a name becomes a one-component identifier (E18), that the default sort direction is ascending on both sides (E19) and that in every dialect the columns of a Map / Reduce CTE are named by the column list or by aliases that survive the dialect's hooks (E8), that the trailing SELECT of a node does not re-apply OFFSET / WHERE / GROUP BY (E7), that join kinds are the same on both sides of the renderer and of the reader (E20) and that base tables are named by their path (E21). Execution on databases, name resolution as a whole and the Map/Reduce split are not decided.",
+                 "inside the node's CTE (E7, E8), that operator operands are parenthesised (E9), that GROUP BY prefers input columns over aliases (E10), that the builders keep the WHERE on every split shape (E11), that nested CASE is merged in order (E12) that CTE lists of binary nodes are merged through one set (E13), that float literals are written with round-trip precision (E14), that the Map/Reduce split keeps the order of select items (E15) that CTE definitions are spelled like their references (E16), that literals are rendered through exact (transparent) Display impls (E17), that a name becomes a one-component identifier (E18), that the default sort direction is ascending on both sides (E19) and that in every dialect the columns of a Map / Reduce CTE are named by the column list or by aliases that survive the dialect's hooks (E8), that the trailing SELECT of a node does not re-apply OFFSET / WHERE / GROUP BY (E7), that join kinds are the same on both sides of the renderer and of the reader (E20) that base tables are named by their path (E21), that the operands of a set operation are read in the order written (E22) and that the column list of every CTE that has one is recorded (E23). Execution on databases, name resolution as a whole and the Map/Reduce split are not decided.",
         "design_ref": "DESIGN.md §3 C08",
         "note": "Trusted: sqlparser parses NAME(args) into a Function node of that name (keyword functions listed); operators map to same-named ast operators.",
     },
     "C12": {
         "technique": "arm-table parity of super_image / value over the syn AST, must-pass-through of the checked_* guards, MIR cast facts with dominating round-trip tests, reviewed table of the 14 primitive pairs",
-        "level": "Decides set/value parity of the 24 dispatching injections (J1), that primitive values and images go through the checked guards (J2), that lossy numeric casts are dominated by a round-trip test (J3), that narrowing / non-monotone conversions can refuse and only map single values (J4), untruncated value enumerations (N1), a single value-conversion entry point (J5) text renderings that print a wrapper only through a transparent Display (J6), a full-type (or refusing) fallback image for sets that are not enumerated (J4) and inner injections that go from the domain side to the co-domain side (J7). "
+        "level": "Decides set/value parity of the 24 dispatching injections (J1), that primitive values and images go through the checked guards (J2), that lossy numeric casts are dominated by a round-trip test (J3), that narrowing / non-monotone conversions can refuse and only map single values (J4), untruncated value enumerations (N1), a single value-conversion entry point (J5) text renderings that print a wrapper only through a transparent Display (J6), a full-type (or refusing) fallback image for sets that are not enumerated (J4) inner injections that go from the domain side to the co-domain side (J7) and per-variant tables of DataType (minimal_subset / maximal_superset / try_empty) that dispatch every payload-carrying variant (J8). "
                  "Injectivity of format!-based renderings and composite liftings over all values are not decided.",
         "design_ref": "DESIGN.md §3 C12",
         "note": "Trusted: the reviewed classification of primitive pairs (PAIRS in qv/c12.py); a new pair is UNDECIDED.",
@@ -92,14 +92,14 @@ CHECKS = {
     },
     "C15": {
         "technique": "simulation of the Found fold and of the Found->Option conversion on all states, call-order/arm tables of Hierarchy lookups, arm table of USING/NATURAL coalescing (syn AST)",
-        "level": "Decides that ambiguity is absorbing and only a single suffix match yields a result (H1), that the exact lookup precedes the suffix search and every accessor goes through it over an ordered map (H2), the suffix predicate (H3), that USING coalesces only the listed columns (H4), that a CTE captures only whole-name unresolved references (H5), that last() decides through the lookup (H6) that FROM items are registered under alias or whole table path (H7), exact field lookup inside a schema (H8), a single whole-path column lookup in expressions (H9) and a USING/NATURAL join that is consistent with the column map handed to the resolver (H10). "
+        "level": "Decides that ambiguity is absorbing and only a single suffix match yields a result (H1), that the exact lookup precedes the suffix search and every accessor goes through it over an ordered map (H2), the suffix predicate (H3), that USING coalesces only the listed columns (H4), that a CTE captures only whole-name unresolved references (H5), that last() decides through the lookup (H6) that FROM items are registered under alias or whole table path (H7), exact field lookup inside a schema (H8), a single whole-path column lookup in expressions (H9) a USING/NATURAL join that is consistent with the column map handed to the resolver (H10) and a FROM-item name collector that lists the table of each join (H11). "
                  "The lookup law over all maps/paths and which column sets reach the lookup from SQL are not decided as a whole.",
         "design_ref": "DESIGN.md §3 C15",
         "note": "Restructured folds fail closed (UNDECIDED).",
     },
     "C17": {
         "technique": "per-translator renderer tables from the MIR (override or default, abort analysis, SQL spelling constants) joined with each dialect's reader table from the AST; dialect pairing; quote characters evaluated against sqlparser's own dialect source",
-        "level": "Decides for the eight translators that every operator in scope is rendered without abort (E3d), under a spelling the same dialect's reader reads back as the same operator (E4d), that each translator reads with its own sqlparser dialect (E5d), quotes identifiers with a character that dialect accepts (E6), and the shared rendering rules E7-E9, E12-E14, E16-E21. "
+        "level": "Decides for the eight translators that every operator in scope is rendered without abort (E3d), under a spelling the same dialect's reader reads back as the same operator (E4d), that each translator reads with its own sqlparser dialect (E5d), quotes identifiers with a character that dialect accepts (E6), the shared rendering / reading rules E7-E9, E12-E14, E16-E23, and that the explicit JOIN projections of BigQuery / Hive qualify left fields with the left name and right fields with the right name (E24). "
                  "Acceptance by the real engines and per-engine semantics are not decided.",
         "design_ref": "DESIGN.md §3 C17",
         "note": "Trusted: sqlparser source in the cargo registry at the version pinned by /repo/Cargo.lock.",
@@ -107,27 +107,27 @@ CHECKS = {
     "C02": {
         "technique": "exhaustive table proof over the syn AST: label-lattice invariants of every RewritingRule row, pattern-match simulation of the Rewriter dispatch, acceptance sets, who-may-call",
         "level": "Exhaustive over the finite rule table: every RewritingRule::new row satisfies the non-interference invariants (T1), is dispatched by the Rewriter to the mechanism it names and never to the pass-through arm when it outputs PUP/DP (T2), "
-                 "the two entry points accept only safe root labels (T3), protected tables never get the Public rule (T4), and the table is closed (T0). This is the rule-level statement of C02.",
+                 "the two entry points accept only safe root labels (T3), protected tables never get the Public rule (T4), the table is closed (T0), the setter and the tracker agree on which tables are protected (T5) and the synthetic table is the value of the declared lookup (T6). This is the rule-level statement of C02.",
         "design_ref": "DESIGN.md §3 C02",
         "note": "Trusted: syn parses the same files rustc builds; the DP aggregation itself (C01/C03/C04) and column-level lineage inside the produced relation are not decided here.",
     },
     "C13": {
         "technique": "arm/term tables over the syn AST: selector/eliminator predicate atoms, origin-tracking mini-evaluator for the cartesian enumeration and child order, arg-max comparator shape",
         "level": "Decides the clauses of C13 that are in the shape of the code: the derivation applied is well-typed (G1 positional agreement, G4 child order), all consistent choices are enumerated (G2 cartesian product, no truncation; G5 drivers return what the visitor computed, de-duplication only under structural equality), "
-                 "the best-scoring accepted candidate is returned or unreachable_property reported (G3), the accepted root labels are exactly the reviewed sets (G6) and the score is additive with the reviewed ranking (G7). Completeness over all trees is not decided.",
+                 "the best-scoring accepted candidate is returned or unreachable_property reported (G3), the accepted root labels are exactly the reviewed sets (G6), the score is additive with the reviewed ranking (G7) and each entry point searches the rule set of the documented strategy (G8). Completeness over all trees is not decided.",
         "design_ref": "DESIGN.md §3 C13",
         "note": "Trusted: visitor.rs hands each node the results of its inputs; syn parses what rustc builds. Completeness/optimality over arbitrary trees out of reach of static rules.",
     },
     "C16": {
         "technique": "reachability over an instantiation-aware (monomorphic) call graph built by a rustc_private MIR driver; who-may-reach rules for hash-order iteration, the global name counter, statics and ambient nondeterminism",
         "level": "Decides that no source of non-determinism (hash-order iteration with an order-sensitive consumer D1, the process-global name counter D2, other process state D3, RNG/clock/env/thread ids D4) is reachable from "
-                 "the parse, render and type entry points, for every instantiation the crate's own code makes, and that every Hash impl feeding the content-derived names covers the whole content (D5); the default sort direction and float literals are the same for reader and renderer (E19, E14). This is a necessary condition of deterministic compilation; semantic equality of re-parsed SQL is not decided.",
+                 "the parse, render and type entry points, for every instantiation the crate's own code makes, and that every Hash impl feeding the content-derived names covers the whole content (D5); the default sort direction and float literals are the same for reader and renderer (E19, E14) and quoted identifiers are never case-folded by the reader (D6). This is a necessary condition of deterministic compilation; semantic equality of re-parsed SQL is not decided.",
         "design_ref": "DESIGN.md §3 C16",
         "note": "Trusted: rustc's Instance resolution; calls through fn pointers resolved at the reification site; drop glue not followed. One edge suppression with a checked caller invariant (qv/reach.py).",
     },
     "C18": {
         "technique": "reachability over the monomorphic call graph (rustc MIR driver) + MIR switch/assert facts: inventory of explicit aborts keyed by the enum variants that select them, unchecked i64 arithmetic with a reviewed safe table, dispatch-table holes",
-        "level": "Inventory: every todo!/unimplemented!/panic!/unreachable! (P1), every overflow-checked i64 operation outside a reviewed safe table (P2) every unwrap of the by-design refusal Variant::try_empty (P5), an integer-range enumeration whose length test under-reports (P6), every implementation registered without the Optional wrapper whose super_image can refuse (P7), every clause of a sqlparser node that is bound and never read (P8) and every hole of the two implementation dispatch tables (E1) that is reachable from the "
+        "level": "Inventory: every todo!/unimplemented!/panic!/unreachable! (P1), every overflow-checked i64 operation outside a reviewed safe table (P2) every unwrap of the by-design refusal Variant::try_empty (P5), an integer-range enumeration whose length test under-reports (P6), every implementation registered without the Optional wrapper whose super_image can refuse (P7), every clause of a sqlparser node that is bound and never read (P8), every rule row whose number of input labels is not the node's number of children (P9), every float image closure that is not clamped to the finite floats (P10) and every hole of the two implementation dispatch tables (E1) that is reachable from the "
                  "public entry points is reported; the sites on the pinned tree are input-confirmed known findings, any new one is a violation. unwrap/expect, indexing, assert! preconditions and termination are not decided.",
         "design_ref": "DESIGN.md §3 C18",
         "note": "Trusted: as C16. The 179 P1 findings (one per unsupported input construct) are one class (unsupported construct -> abort instead of Err); a sample was confirmed by input with a probe binary (DESIGN §6).",
